@@ -41,6 +41,8 @@ class _Scripted:
 def _plain(x):
     if isinstance(x, npmodel.SArray):
         return npmodel.to_real(x)
+    if isinstance(x, _np.ndarray):
+        return x.copy()         # what the environment returned at that moment
     return x
 
 
